@@ -108,18 +108,22 @@ def run(ck):
 
     # ---------------- R2 ----------------
     pops = prog.find("Pistache::PollableQueue::pop", 2)
+    summ = lib.Summaries(prog)
+    is_efd_read = lambda ev: is_libc(ev, "read") and strip_tmpl((ev["args"][0].get("f") or "")).endswith("PollableQueue::event_fd")
+    must_drain = summ.lift_must(is_efd_read, "eventfd-read")
+    may_drain = summ.lift_may(is_efd_read, "eventfd-read")
     for f in pops:
         ck.touch(f)
         qpop = [e for e in f.calls(lambda e: e.base_callee() == "Pistache::Queue::pop" and e.get("qualified"))]
         ck.require(len(qpop) >= 1, "PollableQueue::pop no longer calls Queue::pop (%s)" % f.loc)
         reads_after = []
         for q in qpop:
-            reads_after += [e for e in cfg.events_after(f, q) if is_libc(e, "read")]
+            reads_after += [e for e in cfg.events_after(f, q) if is_libc(e, "read") or may_drain(e)]
         bad_before = []
         bound_blocks = [b.id for b in f.blocks.values() if b.term and "c:Pistache::PollableQueue::isBound" in [strip_tmpl(r) for r in (b.term.get("refs") or [])]]
 
         def step(st, ev):
-            if is_libc(ev, "read") and strip_tmpl((ev["args"][0].get("f") or "")).endswith("PollableQueue::event_fd"):
+            if must_drain(ev):      # the read itself, or a helper every path of which reads the eventfd
                 return "drained"
             if ev in qpop:
                 if st == "init":
